@@ -106,3 +106,37 @@ Definition wf_unseated (l : list bcs) : bool :=
       && Qeq_bool (s_met (bs_snap c)) (bs_met c)
       && wf_unseated_go (bs_met c) (bs_snap c) l'
   end.
+
+(* ---- lists with two changes on ONE position (outside the theorems' domain wf_unseated, which is strict): judged per run
+   by a weaker oracle - measure lines, measures never decreasing, every original time still a tempo point, at most one
+   extra point per interval - and by structural equality with the model. *)
+Fixpoint measures_nondecreasing (prev : Z) (l : list bcs) : bool :=
+  match l with
+  | [] => true
+  | c :: l' => (prev <=? s_m (bs_snap c))%Z && measures_nondecreasing (s_m (bs_snap c)) l'
+  end.
+Definition seated_weak (r : list bcs) : bool :=
+  forallb (fun c => Qeq_bool (s_b (bs_snap c)) 0) r &&
+  match r with
+  | [] => false
+  | c :: r' => (s_m (bs_snap c) =? 0)%Z && measures_nondecreasing 0 r'
+  end.
+Definition reseat_specb_ties (l r : list bcs) : bool := seated_weak r && times_kept l r && one_extra l r.
+Fixpoint wf_ties_go (met : Q) (prev : snap) (l : list bcs) : bool :=
+  match l with
+  | [] => true
+  | c :: l' =>
+      (snap_lt prev (bs_snap c) || snap_eq prev (bs_snap c)) && Qlt_bool 0 (bs_bpm c) && Qeq_bool (bs_met c) met
+      && Qeq_bool (s_met (bs_snap c)) met
+      && Qle_bool 0 (s_b (bs_snap c)) && Qlt_bool (s_b (bs_snap c)) met
+      && wf_ties_go met (bs_snap c) l'
+  end.
+Definition wf_ties (l : list bcs) : bool :=
+  match l with
+  | [] => false
+  | c :: l' =>
+      (s_m (bs_snap c) =? 0)%Z && Qeq_bool (s_b (bs_snap c)) 0 && Qlt_bool 0 (bs_bpm c)
+      && Qeq_bool (bs_met c) (inject_Z (Qfloor (bs_met c))) && Qle_bool 1 (bs_met c) && Qle_bool (bs_met c) 8
+      && Qeq_bool (s_met (bs_snap c)) (bs_met c)
+      && wf_ties_go (bs_met c) (bs_snap c) l'
+  end.
